@@ -220,3 +220,12 @@ def index_only_packing(ctx):
         _ref(ctx, a, REFS[a], {'_pack': 'recursion from the last factor: first factor varies fastest', '_pack.recurse': 'first factor varies fastest',
                                '_unpack': 'factor 0 = first npts[0] entries of column 0', '_unpack.recurse': 'factor i = column i sliced [:prod(npts[:i+1]):prod(npts[:i])]',
                                '_flat': 'concatenation of the factors', '_nested': 'consecutive runs of npts[i] values'}[a.split(':')[1]])
+
+
+@rule('C19.f', min_instances=5)
+def numpy_reductions_get_arrays(ctx):
+    """resolved callees: no numpy reduction reachable from the measure classes (expect, expect_var, pof, support, mass, the setters, flatten/load/update) is handed a generator expression (the statistics delegate to measures.py, where `from numpy import sum` shadows the builtin)"""
+    from . import npcalls
+    m = ctx.model.module('mystic.math.discrete')
+    ents = [f.anchor for q, f in sorted(m.funcs.items()) if q.count('.') <= 1 and not q.split('.')[-1].startswith('__')]
+    npcalls.check_closure(ctx, ents, min_sites=5)
